@@ -677,8 +677,21 @@ func CDXNode(r *rand.Rand, id string, ver int, k int, first bool) *sbom.Node {
 func GluedKeyQuad(r *rand.Rand) []string {
 	sep := Pick(r, []string{"", "", "/", ":", "|", ",", "-", ".", "#", "@", "+", "_", "->", "::", " "})
 	tok := func() string { return string(rune('A'+r.Intn(26))) + string(rune('a'+r.Intn(26))) }
-	x, y, z := tok(), tok(), tok()
-	return []string{x, x + sep + y, y + sep + z, z}
+	for {
+		x, y, z := tok(), tok(), tok()
+		q := []string{x, x + sep + y, y + sep + z, z}
+		distinct := x != y && y != z && x != z
+		for i := range q {
+			for j := i + 1; j < len(q); j++ {
+				if q[i] == q[j] {
+					distinct = false
+				}
+			}
+		}
+		if distinct {
+			return q
+		}
+	}
 }
 
 func containsAny(xs, ys []string) bool {
